@@ -16,6 +16,7 @@ import (
 	"strings"
 	"sync"
 	"sync/atomic"
+	"unsafe"
 )
 
 type (
@@ -26,6 +27,7 @@ type (
 	Pool      = sync.Pool
 )
 
+//go:norace
 func NewCond(l Locker) *Cond { return sync.NewCond(l) }
 
 // gmu guards the state of every simulated lock and of the scheduler. It is a
@@ -33,6 +35,18 @@ func NewCond(l Locker) *Cond { return sync.NewCond(l) }
 var gmu sync.Mutex
 
 var cur atomic.Pointer[Scheduler]
+
+//go:norace
+func glock() {
+	raceOff()
+	gmu.Lock()
+}
+
+//go:norace
+func gunlock() {
+	gmu.Unlock()
+	raceOn()
+}
 
 // Kind of a pending acquisition.
 const (
@@ -58,6 +72,8 @@ type Waiter struct {
 
 // StackHas reports whether any frame of the parked goroutine (up to 40 frames above the lock call) is a function whose
 // name contains sub. Resolved lazily: only classification of an already found violation asks.
+//
+//go:norace
 func (w *Waiter) StackHas(sub string) bool {
 	if w.npcs == 0 {
 		return false
@@ -87,34 +103,47 @@ type Scheduler struct {
 }
 
 // NewScheduler must be called inside the bubble of the run.
+//
+//go:norace
 func NewScheduler() *Scheduler {
 	return &Scheduler{poke: make(chan struct{}, 1), SigHits: map[string]int{}, never: make(chan struct{})}
 }
 
 // Install makes s the scheduler of all simulated locks; nil uninstalls.
+//
+//go:norace
 func Install(s *Scheduler) {
 	cur.Store(s)
 }
 
 // Poke returns the channel on which the scheduler signals "somebody parked or
 // a lock was freed" (and on which harness goroutines signal completions).
+//
+//go:norace
 func (s *Scheduler) Poke() <-chan struct{} { return s.poke }
 
 // Signal wakes the driver if it is sleeping.
+//
+//go:norace
 func (s *Scheduler) Signal() {
+	raceOff()
 	select {
 	case s.poke <- struct{}{}:
 	default:
 	}
+	raceOn()
 }
 
 // Signal wakes the driver of the current run, if any.
+//
+//go:norace
 func Signal() {
 	if s := cur.Load(); s != nil {
 		s.Signal()
 	}
 }
 
+//go:norace
 func (w *Waiter) enabledLocked() bool {
 	if w.m != nil {
 		return !w.m.held
@@ -126,18 +155,22 @@ func (w *Waiter) enabledLocked() bool {
 }
 
 // Parked returns all parked waiters in arrival order.
+//
+//go:norace
 func (s *Scheduler) Parked() []*Waiter {
-	gmu.Lock()
-	defer gmu.Unlock()
+	glock()
+	defer gunlock()
 	out := make([]*Waiter, len(s.parked))
 	copy(out, s.parked)
 	return out
 }
 
 // Enabled returns the parked waiters whose lock is free, in arrival order.
+//
+//go:norace
 func (s *Scheduler) Enabled() []*Waiter {
-	gmu.Lock()
-	defer gmu.Unlock()
+	glock()
+	defer gunlock()
 	var out []*Waiter
 	for _, w := range s.parked {
 		if w.enabledLocked() {
@@ -149,8 +182,10 @@ func (s *Scheduler) Enabled() []*Waiter {
 
 // Grant hands the lock to w and lets its goroutine continue. It reports false
 // if w is not (or no longer) enabled.
+//
+//go:norace
 func (s *Scheduler) Grant(w *Waiter) bool {
-	gmu.Lock()
+	glock()
 	idx := -1
 	for i, p := range s.parked {
 		if p == w {
@@ -159,7 +194,7 @@ func (s *Scheduler) Grant(w *Waiter) bool {
 		}
 	}
 	if idx < 0 || !w.enabledLocked() {
-		gmu.Unlock()
+		gunlock()
 		return false
 	}
 	s.parked = append(s.parked[:idx], s.parked[idx+1:]...)
@@ -171,29 +206,34 @@ func (s *Scheduler) Grant(w *Waiter) bool {
 		w.rw.w = true
 	}
 	s.Grants++
-	gmu.Unlock()
+	gunlock()
+	raceOff()
 	close(w.ch)
+	raceOn()
 	return true
 }
 
 // Stop ends the run: every goroutine that reaches a lock from now on blocks for ever.
+//
+//go:norace
 func (s *Scheduler) Stop() {
-	gmu.Lock()
+	glock()
 	s.stopped = true
-	gmu.Unlock()
+	gunlock()
 }
 
+//go:norace
 func (s *Scheduler) park(w *Waiter) {
-	gmu.Lock()
+	glock()
 	stopped := s.stopped
-	gmu.Unlock()
+	gunlock()
 	if stopped {
 		<-s.never
 	}
 	w.npcs = runtime.Callers(2, w.pcs[:])
 	w.Sig = signature()
 	w.ch = make(chan struct{})
-	gmu.Lock()
+	glock()
 	if w.m != nil {
 		if w.m.run != s {
 			s.nextMID++
@@ -211,9 +251,20 @@ func (s *Scheduler) park(w *Waiter) {
 	w.Seq = s.seq
 	s.parked = append(s.parked, w)
 	s.SigHits[w.Sig]++
-	gmu.Unlock()
+	gunlock()
 	s.Signal()
+	raceOff()
 	<-w.ch
+	raceOn()
+	// the happens-before edges of the lock just obtained, as package sync declares them
+	if w.m != nil {
+		raceAcquire(unsafe.Pointer(w.m))
+	} else {
+		raceAcquire(unsafe.Pointer(&w.rw.r))
+		if w.Kind == KLock {
+			raceAcquire(unsafe.Pointer(&w.rw.w))
+		}
+	}
 }
 
 // ---- Mutex ----
@@ -224,26 +275,28 @@ type Mutex struct {
 	run  *Scheduler
 }
 
+//go:norace
 func (m *Mutex) Lock() {
 	if s := cur.Load(); s != nil {
 		s.park(&Waiter{m: m, Kind: KLock})
 		return
 	}
 	for {
-		gmu.Lock()
+		glock()
 		if !m.held {
 			m.held = true
-			gmu.Unlock()
+			gunlock()
 			return
 		}
-		gmu.Unlock()
+		gunlock()
 		runtime.Gosched()
 	}
 }
 
+//go:norace
 func (m *Mutex) TryLock() bool {
-	gmu.Lock()
-	defer gmu.Unlock()
+	glock()
+	defer gunlock()
 	if m.held {
 		return false
 	}
@@ -251,14 +304,16 @@ func (m *Mutex) TryLock() bool {
 	return true
 }
 
+//go:norace
 func (m *Mutex) Unlock() {
-	gmu.Lock()
+	raceRelease(unsafe.Pointer(m))
+	glock()
 	if !m.held {
-		gmu.Unlock()
+		gunlock()
 		panic("simsync: unlock of unlocked mutex")
 	}
 	m.held = false
-	gmu.Unlock()
+	gunlock()
 	Signal()
 }
 
@@ -271,67 +326,77 @@ type RWMutex struct {
 	run *Scheduler
 }
 
+//go:norace
 func (rw *RWMutex) Lock() {
 	if s := cur.Load(); s != nil {
 		s.park(&Waiter{rw: rw, Kind: KLock})
 		return
 	}
 	for {
-		gmu.Lock()
+		glock()
 		if !rw.w && rw.r == 0 {
 			rw.w = true
-			gmu.Unlock()
+			gunlock()
 			return
 		}
-		gmu.Unlock()
+		gunlock()
 		runtime.Gosched()
 	}
 }
 
+//go:norace
 func (rw *RWMutex) Unlock() {
-	gmu.Lock()
+	raceRelease(unsafe.Pointer(&rw.r))
+	glock()
 	if !rw.w {
-		gmu.Unlock()
+		gunlock()
 		panic("simsync: Unlock of unlocked RWMutex")
 	}
 	rw.w = false
-	gmu.Unlock()
+	gunlock()
 	Signal()
 }
 
+//go:norace
 func (rw *RWMutex) RLock() {
 	if s := cur.Load(); s != nil {
 		s.park(&Waiter{rw: rw, Kind: KRLock})
 		return
 	}
 	for {
-		gmu.Lock()
+		glock()
 		if !rw.w {
 			rw.r++
-			gmu.Unlock()
+			gunlock()
 			return
 		}
-		gmu.Unlock()
+		gunlock()
 		runtime.Gosched()
 	}
 }
 
+//go:norace
 func (rw *RWMutex) RUnlock() {
-	gmu.Lock()
+	raceReleaseMerge(unsafe.Pointer(&rw.w))
+	glock()
 	if rw.r <= 0 {
-		gmu.Unlock()
+		gunlock()
 		panic("simsync: RUnlock of unlocked RWMutex")
 	}
 	rw.r--
-	gmu.Unlock()
+	gunlock()
 	Signal()
 }
 
+//go:norace
 func (rw *RWMutex) RLocker() Locker { return (*rlocker)(rw) }
 
 type rlocker RWMutex
 
-func (r *rlocker) Lock()   { (*RWMutex)(r).RLock() }
+//go:norace
+func (r *rlocker) Lock() { (*RWMutex)(r).RLock() }
+
+//go:norace
 func (r *rlocker) Unlock() { (*RWMutex)(r).RUnlock() }
 
 // ---- Once ----
@@ -341,6 +406,7 @@ type Once struct {
 	done bool
 }
 
+//go:norace
 func (o *Once) Do(f func()) {
 	o.m.Lock()
 	defer o.m.Unlock()
@@ -354,7 +420,10 @@ func (o *Once) Do(f func()) {
 
 var sigCache sync.Map // [8]uintptr -> string
 
+//go:norace
 func signature() string {
+	raceOff()
+	defer raceOn()
 	var pcs [12]uintptr
 	n := runtime.Callers(3, pcs[:])
 	var key [12]uintptr
